@@ -9,6 +9,22 @@ CLAIMED = {
    text="19 kernel-checked theorems (Props/C08.lean) state the documented mapping rule in closed prefix-sum form for maps with any number of ranges of any size, both orientations and sides; the model is tied to /repo on every run by running the real StepMap/Mapping and the model on the same maps (exhaustive small scope in the thorough tier) and diffing; an independent Python statement of the rule searches for failing inputs.",
    note="Trusted: Lean kernel + propext/Classical.choice/Quot.sound; the hand-written model lean/PM/Map.lean (tied by sampling, not proved equal to the Python); harness generators/codec. The k-map mirror round trip is proved for one mirrored pair (mirror_roundtrip_one); longer rebasing-style chains are covered by correspondence + search only.",
    design="§5 C08"),
+
+ "C02": dict(
+   technique="Lean 4 theorems: replace = token splice, slice = token range with open depths, size arithmetic, normal form, re-insertion identity, token injectivity — over a structural-recursion model of replace/slice/cut; exact differential correspondence with Node.slice/cut/replace; token-splice oracle on the real code",
+   text="13 kernel-checked property theorems (Props/C02.lean, ~2700 lines of supporting proofs) about the executable model of Fragment.cut / Node.slice / replace (three-way/two-way rebuild incl. joins, close checks, text merging) for unbounded trees and every open-depth combination; the model is run against the real code on generated (schema, document, range, slice) cases every run and outputs/outcomes are diffed; an independent Python tokenizer states the splice law directly on the real code.",
+   note="Trusted: Lean kernel (+ propext, Classical.choice, Quot.sound), the model lean/PM/{Basic,Fragment,Content,Replace}.lean tied by sampling, harness. Success of re-insertion ('the replace returns') is checked by correspondence/search, the theorem `reinsert` is conditional on it. Positions inside a surrogate pair are outside the guard (Python cannot represent the cut).",
+   design="§5 C02"),
+ "C14": dict(
+   technique="Lean 4 theorems: add_to_set equals the documented rule for every schema/set, canonical form is an invariant of every add/remove sequence, check()'s mark test accepts exactly canonical sets, removal/membership/equality/filtering are the set operations; exact differential correspondence over random mark configurations",
+   text="18 kernel-checked theorems (Props/C14.lean) over the model of Mark.add_to_set/remove_from_set/is_in_set/same_set/set_from and NodeType.allowed_marks/allows_marks for arbitrary exclusion relations and unbounded sets; exact correspondence and a documented-rule oracle on random configurations ('_', empty, names, groups) every run.",
+   note="Trusted: Lean kernel, model lean/PM/Marks.lean tied by sampling, harness; compilation of `excludes`/`marks` spec strings into tables is compared with an independent reading of the spec in the harness, not proved.",
+   design="§5 C14"),
+ "C20": dict(
+   technique="Lean 4 theorems: find_diff_start/end return none iff equal and otherwise the common prefix/suffix length of the marked-up token sequences; exact differential correspondence incl. identity-sharing before/after pairs under a per-call alarm",
+   text="6 kernel-checked theorems (Props/C20.lean) about the structural model of find_diff_start/find_diff_end (UTF-16 units); the real functions are run on self pairs, JSON-rebuilt copies, before/after pairs of random edits (sharing nodes by identity) and unrelated documents, each call under a 2 s alarm, and compared with the model and with an lcp/lcs oracle over to_json().",
+   note="Trusted: Lean kernel, model lean/PM/Diff.lean tied by sampling, harness. Termination of the Python loops cannot be a theorem about a total Lean function: it is decided by the alarm (a hang is a violation with the pair as replay). Guard: documents in normal form (no empty text, adjacent same-markup text merged), which every library constructor maintains.",
+   design="§5 C20"),
 }
 
 NOT_YET = {
